@@ -202,7 +202,9 @@ func (P *Program) expandAuto(c *Contract, fn *ssa.Function) error {
 		// 1 while a colour switched on by echoColor* has not been reset yet (C06)
 		"ghost.ioColor",
 		// the dotted key strings.DotPrefix made for the attribute being printed (C05)
-		"ghost.ioDot"} {
+		"ghost.ioDot",
+		// 1 from the separator written before an attribute until its value is written (C04/C05)
+		"ghost.ioSep"} {
 		if hasStr(c.NoKeeps, d) {
 			continue
 		}
